@@ -70,12 +70,14 @@ def ilit(k):
 
 
 def is_list(ty):
-    return ty == 'Np' or ty.startswith('List ')
+    return ty in ('Np', 'Melody') or ty.startswith('List ')
 
 
 def elem_ty(ty):
     if ty == 'Np':
         return 'Int'
+    if ty == 'Melody':
+        return 'Note'
     e = ty[5:].strip()
     return e[1:-1] if e.startswith('(') and e.endswith(')') else e
 
@@ -107,6 +109,7 @@ class Spec:
         self.value_types = set()          # record types with value semantics (`x.copy()` is the identity on the model's values)
         self.kinds = set()                # note type strings that exist as `Kind` constructors
         self.tuple_fields = {}            # (record type, constant index) -> (template, type): rows stored as Python lists
+        self.copy_template = {}           # value type -> what `x.copy()` is on the model's values (default: the identity)
 
 
 class FunTr:
@@ -118,6 +121,7 @@ class FunTr:
         self.last_tuple = None     # (term, [(component term, type)]) of the tuple expression translated last
         self.tyvars = {}           # marker -> resolved element type of an empty list literal
         self.in_loop = 0
+        self.consts = {}           # parameters the spec fixes to a literal (defaults that the tie does not vary)
 
     def fresh(self, base='t'):
         self.n += 1
@@ -157,6 +161,10 @@ class FunTr:
         raise Untranslatable(f'constant {v!r}')
 
     def e_Name(self, e, env, B):
+        if e.id in self.consts and e.id in env:
+            return self.consts[e.id], env[e.id]
+        if e.id in env.get('__const__', {}) and e.id in env:
+            return env['__const__'][e.id], env[e.id]      # a local bound to a boolean literal on this path
         if e.id in env:
             return ident(e.id), env[e.id]
         if e.id in self.spec.globals:
@@ -203,6 +211,12 @@ class FunTr:
             if ty != 'Bool':
                 raise Untranslatable('and/or on non-bool')
             terms.append(t)
+        absorbing = 'false' if op == '&&' else 'true'
+        if absorbing in terms:
+            return absorbing, 'Bool'          # operands are pure (checked above), so short-circuiting cannot be observed
+        terms = [t for t in terms if t not in ('true', 'false')] or [terms[0]]
+        if len(terms) == 1:
+            return terms[0], 'Bool'
         return '(' + f' {op} '.join(terms) + ')', 'Bool'
 
     def e_IfExp(self, e, env, B):
@@ -300,6 +314,10 @@ class FunTr:
         if op not in self.CMP:
             raise Untranslatable(f'comparison {op}')
         if aty == 'Int' and bty == 'Int':
+            return f'(decide ({a} {self.CMP[op]} {b}))', 'Bool'
+        if 'Rat' in (aty, bty) and {aty, bty} <= {'Rat', 'Int'}:
+            a = a if aty == 'Rat' else f'(({a} : Int) : Rat)'
+            b = b if bty == 'Rat' else f'(({b} : Int) : Rat)'
             return f'(decide ({a} {self.CMP[op]} {b}))', 'Bool'
         if aty == 'Np' and bty == 'Int':
             v = self.fresh('v')
@@ -433,7 +451,7 @@ class FunTr:
                     raise Untranslatable('copy inside a pure context')
                 t = self.fresh('cp')
                 self.fresh_terms.add(t)
-                B.append((t, ('pure', v)))
+                B.append((t, ('pure', self.spec.copy_template.get(vty, '{0}').format(v))))
                 return t, vty
             if fn.attr == 'index' and vty in LIST_TYPES and len(e.args) == 1:
                 x, xty = self.expr(e.args[0], env, B)
@@ -483,6 +501,9 @@ class FunTr:
         for k in given:
             if k not in names:
                 raise Untranslatable(f'{n}: unknown argument {k}')
+        if 'wrap' in c:     # the constructor is bound to a model function of its fields
+            vals = {p.split(' := ', 1)[0]: p.split(' := ', 1)[1] for p in parts}
+            return c['wrap'].format(**vals), c['ty']
         return '({ ' + ', '.join(parts) + ' } : ' + c['ty'] + ')', c['ty']
 
     def e_ListComp(self, e, env, B):
@@ -540,7 +561,7 @@ class FunTr:
         """the value `t : ty` where a `want` is expected (only conversions Python performs implicitly or that are
         representation changes of the model: None/T into Optional[T], int into Fraction, tuples componentwise)"""
         ty, want = self.resolve(ty), self.resolve(want)
-        if lean_ty(ty) == lean_ty(want):
+        if lean_ty(ty).replace('Melody', 'List Note') == lean_ty(want).replace('Melody', 'List Note'):
             return t
         if is_list(ty) and is_list(want) and ('⟦' in ty or '⟦' in want):
             self.unify_list(ty, want)
@@ -580,6 +601,14 @@ class FunTr:
             if isinstance(f, ast.Attribute) and f.attr == 'copy':
                 return True
         return False
+
+    def in_loop_assigned(self, name):
+        return False
+
+    @staticmethod
+    def drop_const(env, names):
+        c = {k_: v_ for k_, v_ in env.get('__const__', {}).items() if k_ not in names}
+        return {**env, '__const__': c}
 
     def fresh_vars(self, env):
         return env.get('__fresh__', frozenset())
@@ -639,6 +668,8 @@ class FunTr:
             return self.block(rest, env, k)
         if isinstance(s, ast.Continue) and self.in_loop:
             return k(env)
+        if isinstance(s, ast.Break) and self.in_loop:
+            return k({**env, '__break__': True})
         if isinstance(s, ast.Assign) and len(s.targets) == 1 and isinstance(s.targets[0], ast.Name):
             B = []
             t, ty = self.expr(s.value, env, B)
@@ -648,8 +679,11 @@ class FunTr:
             fr = set(self.fresh_vars(env)) - {ident(name)}
             if t in self.fresh_terms or self.is_fresh_value(s.value) or isinstance(s.value, (ast.List, ast.ListComp)):
                 fr.add(ident(name))
+            cst = {k_: v_ for k_, v_ in env.get('__const__', {}).items() if k_ != name}
+            if t in ('true', 'false') and not self.in_loop_assigned(name):
+                cst[name] = t
             return self.wrap(B, ('let', ident(name), lean_ty(ty), t,
-                                 self.block(rest, {**env, name: ty, '__fresh__': frozenset(fr)}, k)))
+                                 self.block(rest, {**env, name: ty, '__fresh__': frozenset(fr), '__const__': cst}, k)))
         if isinstance(s, ast.Assign) and len(s.targets) == 1 and isinstance(s.targets[0], ast.Tuple) \
                 and all(isinstance(x, ast.Name) for x in s.targets[0].elts):
             B = []
@@ -659,7 +693,7 @@ class FunTr:
             if len(comps) != len(names):
                 raise Untranslatable(f'unpacking {ty} into {len(names)} names at line {s.lineno}')
             pr = self.fresh('pr')
-            env2 = dict(env)
+            env2 = self.drop_const(env, names)
             fr = set(self.fresh_vars(env))
             for nme, cty in zip(names, comps):
                 env2[nme] = cty
@@ -698,7 +732,8 @@ class FunTr:
             t, ty = self.expr(e, env, B)
             if is_list(ty) and ident(s.target.id) not in self.fresh_vars(env):
                 raise Untranslatable(f'`{s.target.id} += …` on a list that may alias an operand, at line {s.lineno}')
-            return self.wrap(B, ('let', ident(s.target.id), lean_ty(ty), t, self.block(rest, {**env, s.target.id: ty}, k)))
+            return self.wrap(B, ('let', ident(s.target.id), lean_ty(ty), t,
+                                 self.block(rest, {**self.drop_const(env, [s.target.id]), s.target.id: ty}, k)))
         if isinstance(s, ast.Expr) and isinstance(s.value, ast.Call) and isinstance(s.value.func, ast.Attribute) \
                 and s.value.func.attr == 'append' and isinstance(s.value.func.value, ast.Name) and len(s.value.args) == 1:
             x = s.value.func.value.id
@@ -735,27 +770,49 @@ class FunTr:
             if not is_list(ity):
                 raise Untranslatable(f'loop over {ity} at line {s.lineno}')
             svars = [n for n in self.assigned_names(s.body) if n in env and n != s.target.id]
-            stys = [env[n] for n in svars]
-            if any(t_ == 'None' or '⟦' in t_ and self.tyvars.get(elem_ty(t_)) is None and False for t_ in stys):
-                raise Untranslatable('loop state of unknown type')
+            has_break = any(isinstance(x, ast.Break) for st_ in s.body for x in ast.walk(st_))
+            env0 = self.drop_const(env, svars + [s.target.id])
+            pre = []          # promotions int -> Fraction of loop-carried variables (Python does them on the fly)
+            for attempt in range(3):
+                stys = [env0[n] for n in svars]
+                promote = []
 
-            def k_state(env_):
-                parts = []
-                for n, t0 in zip(svars, stys):
-                    t1 = env_[n]
-                    if is_list(t0) and is_list(t1):
-                        self.unify_list(t0, t1)
-                        parts.append(ident(n))
-                    else:
-                        parts.append(self.coerce(ident(n), t1, t0, f'loop variable {n}'))
-                return ('ret', '(' + ', '.join(parts) + ')' if len(parts) != 1 else parts[0])
-            self.in_loop += 1
-            fr = frozenset(set(self.fresh_vars(env)) - {ident(s.target.id)})
-            body = self.block(list(s.body), {**env, s.target.id: elem_ty(ity), '__fresh__': fr}, k_state)
-            self.in_loop -= 1
+                def k_state(env_):
+                    parts = []
+                    for n, t0 in zip(svars, stys):
+                        t1 = env_[n]
+                        if is_list(t0) and is_list(t1):
+                            self.unify_list(t0, t1)
+                            parts.append(ident(n))
+                        elif t0 == 'Int' and t1 == 'Rat':
+                            promote.append(n)
+                            parts.append(ident(n))
+                        else:
+                            parts.append(self.coerce(ident(n), t1, t0, f'loop variable {n}'))
+                    if has_break:
+                        parts = [('true' if env_.get('__break__') else 'false')] + parts
+                    return ('ret', '(' + ', '.join(parts) + ')' if len(parts) != 1 else parts[0])
+                self.in_loop += 1
+                fr = frozenset(set(self.fresh_vars(env0)) - {ident(s.target.id)})
+                saved_n = self.n
+                try:
+                    body = self.block(list(s.body), {**env0, s.target.id: elem_ty(ity), '__fresh__': fr}, k_state)
+                finally:
+                    self.in_loop -= 1
+                if not promote:
+                    break
+                self.n = saved_n
+                for n in set(promote):
+                    env0[n] = 'Rat'
+                    pre.append(n)
+            else:
+                raise Untranslatable('loop variable types do not stabilise')
             st = self.fresh('st')
-            return self.wrap(B, ('for', st, it, lean_ty(elem_ty(ity)), ident(s.target.id),
-                                 [(ident(n), t_) for n, t_ in zip(svars, stys)], body, self.block(rest, env, k)))
+            sv = [(ident(n), t_) for n, t_ in zip(svars, stys)]
+            node = ('for', st, it, lean_ty(elem_ty(ity)), ident(s.target.id), sv, body, self.block(rest, env0, k), has_break)
+            for n in reversed(pre):
+                node = ('let', ident(n), 'Rat', f'(({ident(n)} : Int) : Rat)', node)
+            return self.wrap(B, node)
         if isinstance(s, ast.Return):
             if self.in_loop:
                 raise Untranslatable(f'return inside a loop at line {s.lineno}')
@@ -800,24 +857,31 @@ def render(node, ind, monadic):
         return [f'{sp}match {node[1]} with', f'{sp}| some {node[1]} =>'] + render(node[2], ind + 4, monadic) + \
                [f'{sp}| none =>'] + render(node[3], ind + 4, monadic)
     if k == 'for':
-        _, st, it, xty, x, svars, body, rest = node
-        n = len(svars)
-        sty = ' × '.join(paren(lean_ty(t)) if ' × ' in lean_ty(t) else lean_ty(t) for _, t in svars) or 'Unit'
-        init = '(' + ', '.join(v for v, _ in svars) + ')' if n != 1 else svars[0][0]
+        _, st, it, xty, x, svars, body, rest = node[:8]
+        has_break = len(node) > 8 and node[8]
+        allv = ([('«brk»', 'Bool')] if has_break else []) + list(svars)
+        n = len(allv)
+        sty = ' × '.join(paren(lean_ty(t)) if ' × ' in lean_ty(t) else lean_ty(t) for _, t in allv) or 'Unit'
+        inits = (['false'] if has_break else []) + [v for v, _ in svars]
+        init = '(' + ', '.join(inits) + ')' if n != 1 else inits[0]
         if n == 0:
             init = '()'
         body_pure = is_pure(body)
         out = []
-        unpack = [f'{sp}    let {v} : {lean_ty(t)} := {st}{tuple_proj(n, i)}' for i, (v, t) in enumerate(svars)]
+        extra = 2 if has_break else 0
+        unpack = [f'{sp}    {" " * extra}let {v} : {lean_ty(t)} := {st}{tuple_proj(n, i)}' for i, (v, t) in enumerate(allv)
+                  if v != '«brk»']
         if body_pure:
             out.append(f'{sp}let {st} : {sty} := ({it}).foldl (fun ({st} : {sty}) ({x} : {xty}) =>')
-            out += unpack + render(body, ind + 4, False)
-            out.append(f'{sp}  ) {init}')
         else:
             out.append(f'{sp}let {st} : {sty} ← ({it}).foldlM (fun ({st} : {sty}) ({x} : {xty}) => do')
-            out += unpack + render(body, ind + 4, True)
-            out.append(f'{sp}  ) {init}')
-        out += [f'{sp}let {v} : {lean_ty(t)} := {st}{tuple_proj(n, i)}' for i, (v, t) in enumerate(svars)]
+        if has_break:       # once `break` has run, the remaining iterations do nothing
+            out.append(f'{sp}    if {st}{tuple_proj(n, 0)} then')
+            out.append(f'{sp}      ' + ('' if body_pure else 'pure ') + st)
+            out.append(f'{sp}    else')
+        out += unpack + render(body, ind + 4 + extra, not body_pure)
+        out.append(f'{sp}  ) {init}')
+        out += [f'{sp}let {v} : {lean_ty(t)} := {st}{tuple_proj(n, i)}' for i, (v, t) in enumerate(allv) if v != '«brk»']
         return out + render(rest, ind, monadic)
     if k == 'ret':
         return [f'{sp}pure {node[1]}' if monadic else f'{sp}{node[1]}']
@@ -860,6 +924,7 @@ def translate_function(spec, entry):
     env = {p: t for p, t in params}
     for k, (term, ty) in entry.get('fixed', {}).items():
         env[k] = ty
+        tr.consts[k] = term
     tree = tr.block(list(fd.body), env)
     for k, (term, ty) in reversed(list(entry.get('fixed', {}).items())):
         tree = ('let', ident(k), lean_ty(ty), term, tree)
